@@ -7,7 +7,6 @@ import (
 	"fmt"
 	"sort"
 	"strings"
-	"sync/atomic"
 	"time"
 
 	"github.com/syndtr/goleveldb/leveldb"
@@ -27,13 +26,7 @@ import (
 // read failing at some point does to a table iterator.  Walks mix the five movement calls with Release and
 // SetReleaser; every call's (bool, Key, Value, Valid, Error class) is recorded.
 
-// number of known-finding reports made so far (they do not count towards the stop threshold)
-var knownReported int32
-var knownReportedDB int32
-
-func stopNow(res *vlib.Result) bool {
-	return res.NViolations()-int(atomic.LoadInt32(&knownReported)) >= 18
-}
+func stopNow(res *vlib.Result) bool { return res.NViolations() >= 18 }
 
 var errInjectedOther = errors.New("c02: injected non-corruption error")
 var errInjectedCorrupt = lerrors.NewErrCorrupted(storage.FileDesc{}, errors.New("c02: injected corruption"))
@@ -429,8 +422,9 @@ func runErrWalk(it iterator.Iterator, calls []ecall) (w errWalk) {
 //     and the error stays;
 //   - while no wrapped child has failed the outputs are those of the cursor;
 //   - when every fuse is of a halting kind: the call during which a child fails returns false and records that
-//     kind of error (dbIter: except the known stale-pair defect of prev(), reported as a known finding).
-func checkErrWalk(c *errCase, cmp comparer.Comparer, w errWalk, fired func(i int) (bool, bool)) (bad string, known string) {
+//     kind of error; dbIter (since 35e2053 also on the exit of prev() below its loop) never answers true
+//     once its raw iterator has failed.
+func checkErrWalk(c *errCase, cmp comparer.Comparer, w errWalk, fired func(i int) (bool, bool)) (bad string) {
 	exp := c.expected(cmp)
 	cur := newCursor(exp, cmp)
 	released := false
@@ -459,12 +453,12 @@ func checkErrWalk(c *errCase, cmp comparer.Comparer, w errWalk, fired func(i int
 			// the walk ended with a panic at call i
 			wantPanic := (cl.Op == "Z" || cl.Op == "z") && released || cl.Op == "Z" && hasReleaser
 			if !w.Panicked || i != len(w.Obs) {
-				return fmt.Sprintf("call %d: walk ended early", i), ""
+				return fmt.Sprintf("call %d: walk ended early", i)
 			}
 			if !wantPanic {
-				return fmt.Sprintf("call %d %s: unexpected panic %q", i, cl.Op, w.PanicMsg), ""
+				return fmt.Sprintf("call %d %s: unexpected panic %q", i, cl.Op, w.PanicMsg)
 			}
-			return "", ""
+			return ""
 		}
 		o := w.Obs[i]
 		anyFailed, _ := fired(i)
@@ -474,7 +468,7 @@ func checkErrWalk(c *errCase, cmp comparer.Comparer, w errWalk, fired func(i int
 			continue
 		case "Z", "z":
 			if released || (cl.Op == "Z" && hasReleaser) {
-				return fmt.Sprintf("call %d SetReleaser: expected a panic (released=%v, has releaser=%v)", i, released, hasReleaser), ""
+				return fmt.Sprintf("call %d SetReleaser: expected a panic (released=%v, has releaser=%v)", i, released, hasReleaser)
 			}
 			hasReleaser = cl.Op == "Z"
 			continue
@@ -486,7 +480,7 @@ func checkErrWalk(c *errCase, cmp comparer.Comparer, w errWalk, fired func(i int
 				want = 3
 			}
 			if o.Ret || o.Valid || o.Key != nil || o.Value != nil || o.Err != want {
-				return fmt.Sprintf("call %d %s after Release: returned %v valid %v key %x value %x error class %d (want false, false, nil, nil, %d)", i, m, o.Ret, o.Valid, o.Key, o.Value, o.Err, want), ""
+				return fmt.Sprintf("call %d %s after Release: returned %v valid %v key %x value %x error class %d (want false, false, nil, nil, %d)", i, m, o.Ret, o.Valid, o.Key, o.Value, o.Err, want)
 			}
 			errSeen = want
 			continue
@@ -494,10 +488,10 @@ func checkErrWalk(c *errCase, cmp comparer.Comparer, w errWalk, fired func(i int
 		if errSeen != 0 {
 			// the error stays, every call false
 			if o.Ret || o.Err != errSeen {
-				return fmt.Sprintf("call %d %s after an error of class %d: returned %v, error class %d", i, m, errSeen, o.Ret, o.Err), ""
+				return fmt.Sprintf("call %d %s after an error of class %d: returned %v, error class %d", i, m, errSeen, o.Ret, o.Err)
 			}
 			if c.Kind != "indexed_err" && (o.Valid || o.Key != nil || o.Value != nil) {
-				return fmt.Sprintf("call %d %s after an error: valid %v key %x value %x", i, m, o.Valid, o.Key, o.Value), ""
+				return fmt.Sprintf("call %d %s after an error: valid %v key %x value %x", i, m, o.Valid, o.Key, o.Value)
 			}
 			continue
 		}
@@ -505,45 +499,36 @@ func checkErrWalk(c *errCase, cmp comparer.Comparer, w errWalk, fired func(i int
 		if !anyFailed {
 			// no child has failed so far: the cursor
 			if o.Err != 0 {
-				return fmt.Sprintf("call %d %s: Error class %d although no child failed", i, m, o.Err), ""
+				return fmt.Sprintf("call %d %s: Error class %d although no child failed", i, m, o.Err)
 			}
 			if o.Ret != ok || o.Valid != ok || (ok && (!bytes.Equal(o.Key, k) || !bytes.Equal(o.Value, v))) || (!ok && (o.Key != nil || o.Value != nil)) {
-				return fmt.Sprintf("call %d %s: returned %v valid %v key %x value %x, cursor says %v key %x value %x", i, m, o.Ret, o.Valid, o.Key, o.Value, ok, k, v), ""
+				return fmt.Sprintf("call %d %s: returned %v valid %v key %x value %x, cursor says %v key %x value %x", i, m, o.Ret, o.Valid, o.Key, o.Value, ok, k, v)
 			}
 			continue
 		}
 		// a child has failed (during this call or, unnoticed, earlier)
 		if o.Err != 0 {
 			if o.Ret {
-				return fmt.Sprintf("call %d %s: returned true with Error class %d", i, m, o.Err), ""
+				return fmt.Sprintf("call %d %s: returned true with Error class %d", i, m, o.Err)
 			}
 			errSeen = o.Err
 			continue
 		}
 		if !allHalting {
 			// a skipped corruption error: the iterator goes on without that child; judged by (K) only
-			return "", ""
+			return ""
 		}
 		// every failure halts, a child has failed, yet no error is recorded
-		if c.Kind == "dbiter_err" && o.Ret && (cl.Op == "L" || cl.Op == "P") {
-			// dbIter.prev() returns true without consulting the raw iterator's error.  When the failure hit
-			// between two user keys the saved pair is the right one and the error surfaces at the next call;
-			// when it hit between two versions of one user key the pair is STALE: the known defect
-			if ok && bytes.Equal(o.Key, k) && bytes.Equal(o.Value, v) {
-				continue
-			}
-			return fmt.Sprintf("dbIter: call %d %s returned true, key %x value %x, Error nil although the raw iterator had failed; the view holds %v key %x value %x", i, m, o.Key, o.Value, ok, k, v), "dbiter-prev-stale-on-raw-error"
-		}
 		// a child may have failed in a call the iterator did not need to look at (it returned true elsewhere):
 		// then the output must still be the cursor's
 		if o.Ret != ok || (ok && (!bytes.Equal(o.Key, k) || !bytes.Equal(o.Value, v))) {
-			return fmt.Sprintf("call %d %s: a child has failed, no error recorded, returned %v key %x value %x, cursor says %v key %x value %x", i, m, o.Ret, o.Key, o.Value, ok, k, v), ""
+			return fmt.Sprintf("call %d %s: a child has failed, no error recorded, returned %v key %x value %x, cursor says %v key %x value %x", i, m, o.Ret, o.Key, o.Value, ok, k, v)
 		}
 	}
 	if w.Panicked {
-		return "walk panicked after the last call?", ""
+		return "walk panicked after the last call?"
 	}
-	return "", ""
+	return ""
 }
 
 func coqFuse(f fuseSpec) string {
@@ -678,25 +663,15 @@ func runErrCase(c *errCase, res *vlib.Result, label string) (kcase string, faile
 		res.Count("err_walks_ending_in_setreleaser_panic", 1)
 	}
 	if c.Kind != "indexed_err" { // the indexed cases wrap inside Get: judged by (K) and by the generic rules that need no fired()
-		bad, known := checkErrWalk(c, cmp, w, func(i int) (bool, bool) {
+		bad := checkErrWalk(c, cmp, w, func(i int) (bool, bool) {
 			if i < len(firedAt) {
 				return firedAt[i], true
 			}
 			return false, false
 		})
 		if bad != "" {
-			if known != "" {
-				// a known finding is reported twice per run at most (it would otherwise fill the report)
-				if atomic.AddInt32(&knownReported, 1) <= 2 {
-					res.ViolateKnown(fmt.Sprintf("%s, comparer %d, strict %v: %s", c.Kind, c.Cid, c.Strict, bad), c, known)
-				} else {
-					atomic.AddInt32(&knownReported, -1)
-				}
-				res.Count("err_known_"+known, 1)
-			} else {
-				res.Violate(fmt.Sprintf("%s (%s), comparer %d, strict %v: %s", c.Kind, label, c.Cid, c.Strict, bad), c)
-				return "", true, false
-			}
+			res.Violate(fmt.Sprintf("%s (%s), comparer %d, strict %v: %s", c.Kind, label, c.Cid, c.Strict, bad), c)
+			return "", true, false
 		}
 	} else {
 		bad := checkIndexedErr(c, cmp, w)
